@@ -1,0 +1,120 @@
+//go:build verif
+
+// Contracts for the deductive checker in /verif (govc). Comment-only; ignored without the
+// "verif" build tag.
+
+package types
+
+// The one-byte store prefixes: each is a slice with len == cap == 1, so every key constructor's
+// append allocates a fresh key and never writes into the shared prefix variable.
+//@ invariant keysinv: len(ProposerKey) == 1 && cap(ProposerKey) == 1 && ProposerKey[0] == 1
+//@   && len(ValidatorSigningInfoKey) == 1 && cap(ValidatorSigningInfoKey) == 1 && ValidatorSigningInfoKey[0] == 17
+//@   && len(ValidatorMissedBlockBitArrayKey) == 1 && cap(ValidatorMissedBlockBitArrayKey) == 1 && ValidatorMissedBlockBitArrayKey[0] == 18
+//@   && len(AddrPubkeyRelationKey) == 1 && cap(AddrPubkeyRelationKey) == 1 && AddrPubkeyRelationKey[0] == 19
+//@   && len(AllValidatorsKey) == 1 && cap(AllValidatorsKey) == 1 && AllValidatorsKey[0] == 33
+//@   && len(StakedValidatorsKey) == 1 && cap(StakedValidatorsKey) == 1 && StakedValidatorsKey[0] == 35
+//@   && len(PrevStateValidatorsPowerKey) == 1 && cap(PrevStateValidatorsPowerKey) == 1 && PrevStateValidatorsPowerKey[0] == 49
+//@   && len(UnstakingValidatorsKey) == 1 && cap(UnstakingValidatorsKey) == 1 && UnstakingValidatorsKey[0] == 65
+//@   && len(AwardValidatorKey) == 1 && cap(AwardValidatorKey) == 1 && AwardValidatorKey[0] == 81
+//@   && len(BurnValidatorKey) == 1 && cap(BurnValidatorKey) == 1 && BurnValidatorKey[0] == 82
+
+//@ func KeyForValByAllVals(addr sdk.Address) (r []byte)
+//@   props C20
+//@   uses keysinv
+//@   requires len(addr) > 0
+//@   ensures fresh(r) && len(r) == 1 + len(addr) && r[0] == 33 && (forall i int :: 0 <= i && i < len(addr) ==> r[1 + i] == addr[i])
+//@
+//@ func KeyForValidatorPrevStateStateByPower(address sdk.Address) (r []byte)
+//@   props C20
+//@   uses keysinv
+//@   requires len(address) > 0
+//@   ensures fresh(r) && len(r) == 1 + len(address) && r[0] == 49 && (forall i int :: 0 <= i && i < len(address) ==> r[1 + i] == address[i])
+//@
+//@ func KeyForValidatorAward(address sdk.Address) (r []byte)
+//@   props C20
+//@   uses keysinv
+//@   requires len(address) > 0
+//@   ensures fresh(r) && len(r) == 1 + len(address) && r[0] == 81 && (forall i int :: 0 <= i && i < len(address) ==> r[1 + i] == address[i])
+//@
+//@ func KeyForValidatorBurn(address sdk.Address) (r []byte)
+//@   props C20
+//@   uses keysinv
+//@   requires len(address) > 0
+//@   ensures fresh(r) && len(r) == 1 + len(address) && r[0] == 82 && (forall i int :: 0 <= i && i < len(address) ==> r[1 + i] == address[i])
+//@
+//@ func GetValidatorSigningInfoKey(v sdk.Address) (r []byte)
+//@   props C20
+//@   uses keysinv
+//@   requires len(v) > 0
+//@   ensures fresh(r) && len(r) == 1 + len(v) && r[0] == 17 && (forall i int :: 0 <= i && i < len(v) ==> r[1 + i] == v[i])
+//@
+//@ func GetValMissedBlockPrefixKey(v sdk.Address) (r []byte)
+//@   props C20
+//@   uses keysinv
+//@   requires len(v) > 0
+//@   ensures fresh(r) && len(r) == 1 + len(v) && r[0] == 18 && (forall i int :: 0 <= i && i < len(v) ==> r[1 + i] == v[i])
+//@
+//@ func GetAddrPubkeyRelationKey(address []byte) (r []byte)
+//@   props C20
+//@   uses keysinv
+//@   requires len(address) > 0
+//@   ensures fresh(r) && len(r) == 1 + len(address) && r[0] == 19 && (forall i int :: 0 <= i && i < len(address) ==> r[1 + i] == address[i])
+//@
+// the missed-block key is prefix ++ address ++ little-endian index: injective in (address, index) for a fixed address length
+//@ func GetValMissedBlockKey(v sdk.Address, i int64) (r []byte)
+//@   props C20
+//@   uses keysinv
+//@   requires len(v) > 0 && i >= 0
+//@   ensures len(r) == 9 + len(v)
+//@   ensures r[0] == 18
+//@   ensures forall k int :: 0 <= k && k < len(v) ==> r[1 + k] == v[k]
+//@   ensures r[1 + len(v)] == i % 256 && r[2 + len(v)] == (i / 256) % 256 && r[3 + len(v)] == (i / 65536) % 256 && r[4 + len(v)] == (i / 16777216) % 256
+//@   ensures r[5 + len(v)] == (i / 4294967296) % 256 && r[6 + len(v)] == (i / 1099511627776) % 256 && r[7 + len(v)] == (i / 281474976710656) % 256 && r[8 + len(v)] == i / 72057594037927936
+//@
+//@ func AddressFromKey(key []byte) (r []byte)
+//@   props C20
+//@   requires len(key) >= 1
+//@   ensures len(r) == len(key) - 1 && ref(r) == ref(key) && off(r) == off(key) + 1
+//@
+//@ func GetValidatorSigningInfoAddress(key []byte) (v sdk.Address)
+//@   props C20
+//@   requires len(key) >= 1
+//@   panics string when len(key) != 21
+//@   ensures len(v) == 20 && ref(v) == ref(key) && off(v) == off(key) + 1
+//@
+// power rank key = 0x23 ++ big-endian(floor(stake / 10^6)) ++ bitwise complement of the 20-byte address
+// (the eight power bytes are given digit by digit, base 256, most significant first)
+//@ func getStakedValPowerRankKey(validator Validator) (key []byte)
+//@   props C20 C05
+//@   uses keysinv powinv
+//@   requires validator.StakedTokens.i != nil && val(validator.StakedTokens) >= 0 && len(validator.Address) == 20
+//@   panics string when val(validator.StakedTokens) / 1000000 > 9223372036854775807
+//@   ensures fresh(key) && len(key) == 29 && key[0] == 35
+//@   ensures key[1] == (val(validator.StakedTokens) / 1000000) / 72057594037927936 && key[2] == ((val(validator.StakedTokens) / 1000000) / 281474976710656) % 256 && key[3] == ((val(validator.StakedTokens) / 1000000) / 1099511627776) % 256 && key[4] == ((val(validator.StakedTokens) / 1000000) / 4294967296) % 256 && key[5] == ((val(validator.StakedTokens) / 1000000) / 16777216) % 256 && key[6] == ((val(validator.StakedTokens) / 1000000) / 65536) % 256 && key[7] == ((val(validator.StakedTokens) / 1000000) / 256) % 256 && key[8] == (val(validator.StakedTokens) / 1000000) % 256
+//@   ensures forall i int :: 0 <= i && i < 20 ==> key[9 + i] == 255 - validator.Address[i]
+//@   loop 1 invariant 0 - 1 <= #rangeindex && #rangeindex < 20 && len(operAddrInvr) == 20 && fresh(operAddrInvr) && off(operAddrInvr) == 0
+//@   loop 1 invariant forall i int :: 0 <= i && i <= #rangeindex ==> operAddrInvr[i] == 255 - validator.Address[i]
+//@   loop 1 invariant forall i int :: #rangeindex < i && i < 20 ==> operAddrInvr[i] == validator.Address[i]
+//@   loop 1 invariant key[0] == 35 && key[1] == (val(validator.StakedTokens) / 1000000) / 72057594037927936 && key[2] == ((val(validator.StakedTokens) / 1000000) / 281474976710656) % 256 && key[3] == ((val(validator.StakedTokens) / 1000000) / 1099511627776) % 256 && key[4] == ((val(validator.StakedTokens) / 1000000) / 4294967296) % 256 && key[5] == ((val(validator.StakedTokens) / 1000000) / 16777216) % 256 && key[6] == ((val(validator.StakedTokens) / 1000000) / 65536) % 256 && key[7] == ((val(validator.StakedTokens) / 1000000) / 256) % 256 && key[8] == (val(validator.StakedTokens) / 1000000) % 256
+//@   loop 1 invariant forall i int :: 0 <= i && i < 20 ==> validator.Address[i] == old(validator.Address[i])
+//@   loop 1 invariant forall r int :: 0 <= r && r < old(alloc) ==> Ha_Int[r] == old(Ha_Int[r])
+//@   loop 1 decreases 20 - #rangeindex
+//@
+//@ func KeyForValidatorInStakingSet(validator Validator) (key []byte)
+//@   props C20 C05
+//@   uses keysinv powinv
+//@   requires validator.StakedTokens.i != nil && val(validator.StakedTokens) >= 0 && len(validator.Address) == 20
+//@   panics string when val(validator.StakedTokens) / 1000000 > 9223372036854775807
+//@   ensures fresh(key) && len(key) == 29 && key[0] == 35
+//@   ensures key[1] == (val(validator.StakedTokens) / 1000000) / 72057594037927936 && key[2] == ((val(validator.StakedTokens) / 1000000) / 281474976710656) % 256 && key[3] == ((val(validator.StakedTokens) / 1000000) / 1099511627776) % 256 && key[4] == ((val(validator.StakedTokens) / 1000000) / 4294967296) % 256 && key[5] == ((val(validator.StakedTokens) / 1000000) / 16777216) % 256 && key[6] == ((val(validator.StakedTokens) / 1000000) / 65536) % 256 && key[7] == ((val(validator.StakedTokens) / 1000000) / 256) % 256 && key[8] == (val(validator.StakedTokens) / 1000000) % 256
+//@   ensures forall i int :: 0 <= i && i < 20 ==> key[9 + i] == 255 - validator.Address[i]
+//@
+//@ func ParseValidatorPowerRankKey(key []byte) (operAddr []byte)
+//@   props C20 C05
+//@   panics string when len(key) != 29
+//@   ensures fresh(operAddr) && len(operAddr) == 20 && (forall i int :: 0 <= i && i < 20 ==> operAddr[i] == 255 - key[9 + i])
+//@   loop 1 invariant 0 - 1 <= #rangeindex && #rangeindex < 20 && len(operAddr) == 20 && fresh(operAddr) && off(operAddr) == 0
+//@   loop 1 invariant forall i int :: 0 <= i && i <= #rangeindex ==> operAddr[i] == 255 - key[9 + i]
+//@   loop 1 invariant forall i int :: #rangeindex < i && i < 20 ==> operAddr[i] == key[9 + i]
+//@   loop 1 invariant forall r int :: 0 <= r && r < old(alloc) ==> Ha_Int[r] == old(Ha_Int[r])
+//@   loop 1 decreases 20 - #rangeindex
